@@ -133,6 +133,16 @@ CHECKS = {
         "XML output escapes values and attributes so that written trees load back; bool accepts exactly the documented literals.",
    note="Not decided: the complete merge semantics on arbitrary user trees, expat's behaviour, numeric lexical_cast details. The lint "
         "covers xtp/share/xtp/xml and its sub-packages (csg_defaults.xml.in is a template without choices attributes)."),
+ "C10": dict(cat="other", ref="DESIGN.md section 4 C10",
+   technique="lock-counter dataflow over the CFGs of the ProgObserver<std::vector<Job>> instantiation (thread mutex, file-lock bracket with wrapper bodies resolved to boost file_lock::lock/unlock), dominance checks for backup-before-rewrite and the assignment steps, guard extraction for the merge rule, who-may-call",
+   text="Decides the protocol shape for every schedule and process count: observer state is only touched under lockThread_ and the "
+        "mutex is released on every exit; every read/write of the job file and every job assignment lies inside LockProgFile/"
+        "ReleaseProgFile, which take and release the EXCLUSIVE inter-process lock; the merged list is written to the backup before "
+        "the job file is rewritten and WRITE_JOBS always emits a complete document; foreign results are merged exactly when they come "
+        "from another host; a job is reset and marked ASSIGNED (host, time) before it is queued, the cursor advances every iteration "
+        "and each queued job is handed out once.",
+   note="xtp is not built here: units are parsed with synthesised flags (stated assumption). Not decided: behaviour at real crash "
+        "points, boost::interprocess semantics, exception paths."),
 }
 NA = {
 }
